@@ -517,6 +517,78 @@ def run_unitaries_probe(run):
                  "is fitted with row-order candidates", {"row": res["row"].tolist(), "column": res["column"].tolist()})
 
 
+def run_basis_probe(run, rng):
+    """pauli_basis / comp_basis_to_pauli / pauli_to_comp_basis at n = 3 (all orders) and n = 4 (pauli_basis alone):
+    un-normalised output == Coq model (exact); normalised output * sqrt(2^n) == un-normalised output and the normalised
+    basis change is unitary; vectorize=False agrees with vectorize=True(order=row); one normalised Liouville -> Pauli ->
+    Liouville round trip on an integer matrix at n = 3."""
+    import qibo.quantum_info as qi
+    terms, meta = [], []
+
+    def tcheck(key, ok, detail, rp):
+        run.case({"basis_probe": key, **rp}, True)
+        if not ok:
+            run.find(key, detail, {"function": key.split(":")[0], **rp})
+
+    for n, orders, pos in ((3, ORDERS, ["IXYZ", rng.choice(PAULI_ORDERS[1:])]), (4, ("row",), [rng.choice(PAULI_ORDERS[1:])])):
+        d, N = 2 ** n, 4 ** n
+        for po in pos:
+            pn = po_nat(po)
+            plain = {nz: np.asarray(qi.pauli_basis(n, nz, vectorize=False, pauli_order=po)) for nz in (False, True)}
+            for order in orders:
+                o = ocoq(order, n)
+                rp = {"n": n, "order": order, "pauli_order": po}
+                fns = [("pauli_basis", lambda nz: qi.pauli_basis(n, nz, vectorize=True, order=order, pauli_order=po), f"(z_pauli_basis_vec {pn} {o} {n}%nat)")]
+                if n == 3:
+                    fns += [("comp_basis_to_pauli", lambda nz: qi.comp_basis_to_pauli(n, nz, order=order, pauli_order=po), f"(z_comp_basis_to_pauli {pn} {o} {n}%nat)"),
+                            ("pauli_to_comp_basis", lambda nz: qi.pauli_to_comp_basis(n, nz, order=order, pauli_order=po), f"(z_pauli_to_comp_basis {pn} {o} {n}%nat)")]
+                for fn, impl, model in fns:
+                    try:
+                        un, nm = np.asarray(impl(False)), np.asarray(impl(True))
+                        val = ints(un)[0]
+                    except Exception as e:  # noqa: BLE001
+                        run.find(f"{fn}:order={order}:raises", f"{fn}(n={n}) raised {type(e).__name__}: {e}", rp)
+                        continue
+                    terms.append((f"b{len(terms)}", f"zmeqb {model} {lit(val)}"))
+                    meta.append((f"{fn}:order={order}", rp))
+                    err = float(np.abs(nm * np.sqrt(d) - un).max())
+                    tcheck(f"{fn}:order={order},normalize=True", err < 1e-12,
+                           f"{fn}(n={n}, normalize=True) * sqrt(2^n) differs from the un-normalised result by {err:.3g}", rp)
+                    gram = nm @ nm.conj().T
+                    tcheck(f"{fn}:order={order},normalize=True", float(np.abs(gram - np.eye(N)).max()) < 1e-12,
+                           f"{fn}(n={n}, normalize=True) is not unitary: max|B B^dagger - I| = {float(np.abs(gram - np.eye(N)).max()):.3g}", rp)
+                    if fn == "pauli_basis" and order == "row":
+                        for nz, vecd in ((False, un), (True, nm)):
+                            tcheck("pauli_basis:vectorize=False", np.array_equal(plain[nz].reshape(N, d * d), vecd),
+                                   f"pauli_basis(n={n}, normalize={nz}, vectorize=False) is not the un-vectorised row form", rp)
+        if n == 3:
+            X = rand_mat(rng, N, lo=-2, hi=2)
+            for order in ("row", "system"):
+                po = pos[-1]
+                back = qi.pauli_to_liouville(qi.liouville_to_pauli(X.copy(), True, order, po), True, order, po)
+                tcheck(f"liouville_to_pauli:order={order},normalize=True:roundtrip", float(np.abs(back - X).max()) < 1e-9,
+                       f"pauli_to_liouville(liouville_to_pauli(X, normalize=True), normalize=True) != X at n=3 (max error "
+                       f"{float(np.abs(back - X).max()):.3g})", {"n": n, "order": order, "pauli_order": po})
+                back = qi.pauli_to_liouville(qi.liouville_to_pauli(X.copy(), False, order, po), False, order, po)
+                tcheck(f"liouville_to_pauli:order={order}:roundtrip", np.array_equal(back, X * N),
+                       "un-normalised round trip at n=3 is not 4^n * X", {"n": n, "order": order, "pauli_order": po})
+    # one file per ~4 matrices, in parallel
+    jobs = [list(range(i, min(i + 4, len(terms)))) for i in range(0, len(terms), 4)]
+
+    def work(idxs):
+        out, _ = run.coq_bools(f"C17_basis_{idxs[0]}.v", HEADER, [terms[i] for i in idxs], timeout=900)
+        return idxs, out
+    with ThreadPoolExecutor(max_workers=8) as ex:
+        for idxs, out in ex.map(work, jobs):
+            for i in idxs:
+                key, rp = meta[i]
+                run.case({"basis_probe": key, **rp}, True)
+                if out is None:
+                    run.find(f"coq:{key}", "generated Coq file did not compile", rp, concrete=False)
+                elif not out[terms[i][0]]:
+                    run.find(key, f"{key} at n={rp['n']} (pauli_order={rp['pauli_order']}) differs from the Coq model of the Pauli basis", rp)
+
+
 # ----------------------------------------------------------------------------- driver
 def coq_check(run, ctxs, jobs=8):
     """evaluate, per case, model==impl and spec(impl) inside Coq; returns {(ci, idx): (eq, spec)}"""
@@ -577,6 +649,8 @@ def plan(tier, rng):
     pl.append((make_case(rng, 1, 3, "full", "n1_rank3"), ORDERS, P[:1] + rng.sample(P[1:], 3), True, True, True))
     pl.append((make_case(rng, 2, 2, "perm", "n2_rank2_permuted_qubits"), ORDERS, P, True, True, True))
     pl.append((make_case(rng, 2, 3, "sub", "n2_rank3_subsets"), ORDERS, P[:1] + rng.sample(P[1:], 2), True, True, True))
+    # a size where 2^n != 2n and 4^n != n^2: every dimension-dependent factor of the Pauli table, also in quick
+    pl.append((make_case(rng, 3, 1, "perm", "n3_rank1_dimension_factors"), ("column", "system"), ["XZIY"], True, False, False))
     if tier == "thorough":
         pl.append((make_case(rng, 2, 1, "full", "n2_rank1"), ORDERS, P, True, True, True))
         pl.append((make_case(rng, 2, 4, "sub", "n2_rank4_subsets"), ORDERS, rng.sample(P, 6), True, True, True))
@@ -586,7 +660,7 @@ def plan(tier, rng):
 
 
 RULE = ("seeded integer Kraus sets (asymmetric: K != K^T, K != K^dagger; on permuted / proper-subset qubits), "
-        "n<=2 quick / n<=3 thorough, orders row/column/system x pauli orders (all 24 at n<=2) ; one case = one "
+        "n<=2 (plus one n=3 case and an n=3/n=4 Pauli-basis probe) quick / n<=3 thorough, orders row/column/system x pauli orders (all 24 at n<=2) ; one case = one "
         "(function, order, pauli_order, channel) output compared entry-for-entry with the Coq model and, where the "
         "output is a channel representation, through its textbook action on an asymmetric integer rho; a case is "
         "non-trivial when the output matrix is not symmetric under the index permutation being tested "
@@ -684,7 +758,30 @@ def main(run):
             for ax in re.findall(r"([A-Z]\w*(?:\.\w+)+)\s*:", pa[name]):
                 run.axioms.add(ax)
     run.checker_cmds.append("make -C coq theories/C17/Props.vo")
-    check_plan(run, plan(run.tier, rng))
+    class Side:                      # collects the probe's results apart, merged after both parts are done
+        def __init__(self):
+            self.cases, self.found = [], []
+
+        def case(self, c, nontrivial=True):
+            self.cases.append((c, nontrivial))
+
+        def find(self, *a, **k):
+            self.found.append((a, k))
+
+        def coq_bools(self, *a, **k):
+            return run.coq_bools(*a, **k)
+    side_run = Side()
+    with ThreadPoolExecutor(max_workers=1) as side:      # the n=3/n=4 basis probe runs beside the conversion table
+        fut = side.submit(run_basis_probe, side_run, random.Random(run.seed + 1))
+        check_plan(run, plan(run.tier, rng))
+        fut.result()
+    for c, nt in side_run.cases:
+        run.case(c, nt)
+    seen = {f.key for f in run.findings}
+    for a, k in side_run.found:
+        if a[0] not in seen:
+            seen.add(a[0])
+            run.find(*a, **k)
     run_unitaries_probe(run)
     run.notes["historical_lemmas"] = ("C17/Historical.v keeps labelled lemmas about the pre-repair formulas of to_pauli_liouville "
                                     "and QuantumChannel.apply; they are not statements about the current tree")
@@ -693,6 +790,10 @@ def main(run):
 
 def replay(run, data):
     rp = data.get("replay", {})
+    if "case" not in rp and data.get("key", "").split(":")[0] in ("pauli_basis", "comp_basis_to_pauli", "pauli_to_comp_basis", "liouville_to_pauli"):
+        run_basis_probe(run, random.Random(data.get("seed", 0) + 1))
+        run.findings = [f for f in run.findings if f.key == data["key"]][:1]
+        return run.finish(rule="replay of the n=3 / n=4 Pauli-basis probe")
     if data.get("key", "").startswith("kraus_to_unitaries"):
         run_unitaries_probe(run)
         run.findings = [f for f in run.findings if f.key == data["key"]][:1]
